@@ -10,7 +10,9 @@ import json
 import vlib
 
 EC = {'FIELD': '|', 'COMPONENT': '^', 'SUBCOMPONENT': '&', 'REPETITION': '~', 'ESCAPE': '\\', 'GROUP': '\r', 'SEGMENT': '\r'}
-SEG_FIELDS = {'PID': [3, 5, 8, 11, 13], 'NK1': [2, 4, 5], 'OBX': [3, 5, 6]}
+SEG_FIELDS = {'PID': [3, 5, 8, 11, 13], 'NK1': [2, 4, 5], 'OBX': [3, 5, 6],
+              # open-ended segments (a Z segment; QPD ends in a `varies` field): any index is a field, the encoder pads up to the highest one in use
+              'ZIN': [2, 3, 5, 9, 12], 'QPD': [1, 2, 4, 6, 11]}
 VALUES = ['A', 'B', 'C^D', 'E^F&G', 'H', 'I^^J', 'K']
 MSG_SEGS = ['EVN', 'PID', 'NK1', 'PV1', 'OBX', 'AL1', 'DG1', 'ZZ1']
 
